@@ -161,3 +161,11 @@ func verifTimeNanos(t time.Time) int64 { return t.UnixNano() }
 // verifReachable is decided on the executor's heap; natively it is not
 // observable and reports false (heap-walk assertions are executor-only).
 func verifReachable(root any, target any) bool { return false }
+
+// verifJSONDoc returns a JSON document that decodes to the string s. Under
+// the executor encoding/json is a stub: json.Unmarshal of this document
+// yields s or fails.
+func verifJSONDoc(s string) []byte {
+	b, _ := json.Marshal(s)
+	return b
+}
